@@ -412,6 +412,11 @@ def _seq_refs(names):
 
 def schedule_engine(rep, tier):
     H = harnesses(tier)
+    only = os.environ.get("VERIF_C14_HARNESSES")  # development knob: comma-separated harness-name prefixes
+    if only:
+        H = {k: v for k, v in H.items() if k.startswith(tuple(only.split(",")))}
+        rep.cov["exhaustive"] = False
+        rep.assumptions.append(f"PARTIAL RUN: VERIF_C14_HARNESSES={only}")
     all_names = sorted({n for bodies, _ in H.values() for n, _ in bodies} | set(_PROBE))
     refs = _seq_refs(all_names)
     per_h = {}
@@ -420,8 +425,8 @@ def schedule_engine(rep, tier):
         bound = 1
         if nthreads == 2 and hname.startswith(("T3", "T4", "T5")):
             bound = 2
-        if tier == "thorough" and nthreads == 2 and hname.startswith(("T1", "T2")):
-            bound = 2
+        if tier == "thorough" and nthreads == 2 and hname.startswith(("T1", "T2", "I3", "I4", "I5")):
+            bound = 2  # thorough: instruction-level harnesses to two preemptions as well (~0.5-0.7 M schedules each)
         _BOUND[(tier, hname)] = bound
         stats = {"schedules": 0, "steps": 0, "paths": set(), "final_states": set(), "bound": bound, "threads": nthreads,
                  "by_preemptions": {}}
@@ -479,9 +484,12 @@ def run(tier):
 
     rep = Report("C14", tier)
     t0 = time.time()
-    hash_seed_engine(rep, tier)
+    partial = bool(os.environ.get("VERIF_C14_HARNESSES"))
+    if not partial:
+        hash_seed_engine(rep, tier)
     t1 = time.time()
-    history_engine(rep, tier)
+    if not partial:
+        history_engine(rep, tier)
     t2 = time.time()
     schedule_engine(rep, tier)
     rep.add(engine_wall_s={"hash_seeds": round(t1 - t0, 1), "histories": round(t2 - t1, 1), "schedules": round(time.time() - t2, 1)})
